@@ -74,6 +74,7 @@ class Ctx(object):
         self.evaluations = 0
         self.counters = {}
         self.nontrivial_keys = set()
+        self.nontrivial_counted = 0
         self.outcomes = {}
         self.samples = []
         self.violations = []
@@ -92,6 +93,10 @@ class Ctx(object):
         if not isinstance(key, str):
             key = hkey(key)
         self.nontrivial_keys.add(key)
+
+    def nontrivial_n(self, n=1):
+        """count non-trivial cases that are distinct by construction of the enumeration (each index visited once)"""
+        self.nontrivial_counted += int(n)
 
     def outcome(self, cls, n=1):
         """register an observed outcome class (vacuity indicator)"""
@@ -122,7 +127,7 @@ class Ctx(object):
     # ---- (de)serialisation of a shard result ------------------------------
     def dump(self):
         return dict(evaluations=self.evaluations, counters=self.counters,
-                    nontrivial=sorted(self.nontrivial_keys), outcomes=self.outcomes,
+                    nontrivial=sorted(self.nontrivial_keys), nontrivial_counted=self.nontrivial_counted, outcomes=self.outcomes,
                     samples=self.samples, violations=self.violations, viol_count=self.viol_count,
                     notes=self.notes, extra=self.extra, harness_errors=self.harness_errors)
 
@@ -131,6 +136,7 @@ class Ctx(object):
         for k, v in d["counters"].items():
             self.counters[k] = self.counters.get(k, 0) + v
         self.nontrivial_keys.update(d["nontrivial"])
+        self.nontrivial_counted += d.get("nontrivial_counted", 0)
         for k, v in d["outcomes"].items():
             self.outcomes[k] = self.outcomes.get(k, 0) + v
         for s in d["samples"]:
@@ -177,10 +183,12 @@ def run_shard(mod, ctx):
                                                tb="replay raised: " + traceback.format_exc()[-2000:]))
                 continue
             a = sorted(v["signature"] for v in ctx.violations[before:])
-            b = sorted(v["signature"] for v in probe.violations[:len(a)])
-            if a != b:
+            b = sorted(v["signature"] for v in probe.violations)
+            truncated = (ctx.viol_count - vc) != len(a) or probe.viol_count != len(b)
+            if (probe.viol_count != ctx.viol_count - vc) or (not truncated and a != b):
                 ctx.harness_errors.append(dict(clause=clause, case=json.loads(jdump(case)),
-                                               tb="non-deterministic verdict: %r vs %r" % (a[:3], b[:3])))
+                                               tb="non-deterministic verdict: %d %r vs %d %r" % (
+                                                   ctx.viol_count - vc, a[:3], probe.viol_count, b[:3])))
     ctx._cur = None
 
 
@@ -243,7 +251,7 @@ def finish(mod, ctx, t0, extra_coverage=None, assumptions=None, exhaustive=True,
                 print("VIOLATION property=%s replay=%s" % (prop, p))
                 print("   clause=%s: %s" % (v["clause"], v["what"][:300]))
     cov = dict(evaluations=int(ctx.evaluations),
-               distinct_nontrivial=len(ctx.nontrivial_keys),
+               distinct_nontrivial=len(ctx.nontrivial_keys) + ctx.nontrivial_counted,
                rule=rule or getattr(mod, "RULE", ""),
                samples=ctx.samples[:MAX_SAMPLES],
                exhaustive=bool(exhaustive),
@@ -271,7 +279,7 @@ def finish(mod, ctx, t0, extra_coverage=None, assumptions=None, exhaustive=True,
         f.write(jdump(ev, indent=1))
     print("%s tier=%s seed=%d evaluations=%d distinct_nontrivial=%d outcome_classes=%d "
           "violations=%d known=%d wall=%.1fs" % (prop, ctx.tier, ctx.seed, ctx.evaluations,
-                                                len(ctx.nontrivial_keys), len(ctx.outcomes), len(new),
+                                                len(ctx.nontrivial_keys) + ctx.nontrivial_counted, len(ctx.outcomes), len(new),
                                                 len(known), time.time() - t0))
     for k, v in sorted(ctx.counters.items()):
         print("   %-40s %d" % (k, v))
